@@ -31,6 +31,7 @@ ASSUMPTIONS = [
 ]
 
 BLANKS = ' \t\r\n\v\f'
+OTHER = '(zz / yy :qq "ww"~9 :pp (vv / uu))\n(tt)'
 
 
 def shards(tier, seed):
@@ -141,6 +142,19 @@ def check(case, ctx):
             got2 = [tuple(t[:4]) for t in toks2]
             if got2 != got:
                 ctx.fail(f'containers: tokens for {variant} differ from tokens for the string', expected=got, observed=got2)
+                return
+        # ---- (4) two lexers alive at once (lazy token streams must not share scratch state)
+        if not triple and len(toks) >= 2:
+            from penman import _lexer
+            ita = iter(_lexer.lex(s))
+            itb = iter(_lexer.lex(OTHER))
+            got3 = []
+            for k in range(len(toks)):
+                got3.append(tuple(next(ita)[:4]))
+                next(itb, None)
+            ctx.transitions += 1
+            if got3 != got:
+                ctx.fail('concurrency: tokens change when a second lexer is consumed alternately', expected=got, observed=got3)
                 return
         if len(toks) >= 2 or any(t[0] == 'UNEXPECTED' for t in toks):
             nontrivial = True
